@@ -598,46 +598,9 @@ def clash_class(listing, flt):
     return None
 
 
-def root_keys(f, descend_not):
-    out = []
-    if not isinstance(f, dict):
-        return out
-    for k, v in f.items():
-        if k in ("$and", "$or") and isinstance(v, list):
-            for x in v:
-                out += root_keys(x, descend_not)
-        elif k == "$not" and descend_not and isinstance(v, dict):
-            out += root_keys(v, descend_not)
-        else:
-            out.append(k.split(".", 1)[0])
-    return out
-
-
-def not_doc_class(flt):
-    """F-6b: the document namespace is mentioned only below a `$not`."""
-    return "doc" in root_keys(flt, True) and "doc" not in root_keys(flt, False)
-
-
-def f6b_fixed():
-    """Does the running signac index documents for a filter that mentions `doc` only below `$not`?
-    (decides whether such filters take part in the model/implementation diff: the Lean model
-    mirrors the fixed behaviour)"""
-    try:
-        from signac.filterparse import _root_keys
-
-        return "doc" in list(_root_keys({"$not": {"doc.x": 1}}))
-    except Exception:  # noqa
-        return False
-
-
 def known_class_of(listing, flt):
     """finding id whose class the (corpus, filter) pair belongs to, or None"""
-    c = clash_class(listing, flt)
-    if c:
-        return c
-    if not_doc_class(flt):
-        return "F-6b"
-    return None
+    return clash_class(listing, flt)
 
 
 # --------------------------------------------------------------------------------------
